@@ -36,176 +36,131 @@ theorem nv_c14_0_7 (w : Nat) : extractBits (clr w 14 15) 0 7 = extractBits w 0 7
 theorem nv_c14_8_10 (w : Nat) : extractBits (clr w 14 15) 8 10 = extractBits w 8 10 := by ebclr
 theorem nv_c14_11_12 (w : Nat) : extractBits (clr w 14 15) 11 12 = extractBits w 11 12 := by ebclr
 theorem nv_c14_13_13 (w : Nat) : extractBits (clr w 14 15) 13 13 = extractBits w 13 13 := by ebclr
+theorem nv_c14_self (w : Nat) : extractBits (clr w 14 15) 14 15 = 0 := by ebclr
 theorem nv_c14_16_18 (w : Nat) : extractBits (clr w 14 15) 16 18 = extractBits w 16 18 := by ebclr
 theorem nv_c14_19_19 (w : Nat) : extractBits (clr w 14 15) 19 19 = extractBits w 19 19 := by ebclr
 theorem nv_c14_20_20 (w : Nat) : extractBits (clr w 14 15) 20 20 = extractBits w 20 20 := by ebclr
 theorem nv_c14_21_21 (w : Nat) : extractBits (clr w 14 15) 21 21 = extractBits w 21 21 := by ebclr
-theorem nv_c14_22_23 (w : Nat) : extractBits (clr w 14 15) 22 23 = extractBits w 22 23 := by ebclr
+theorem nv_c14_22_22 (w : Nat) : extractBits (clr w 14 15) 22 22 = extractBits w 22 22 := by ebclr
+theorem nv_c14_23_23 (w : Nat) : extractBits (clr w 14 15) 23 23 = extractBits w 23 23 := by ebclr
 theorem nv_c14_24_26 (w : Nat) : extractBits (clr w 14 15) 24 26 = extractBits w 24 26 := by ebclr
 theorem nv_c14_27_27 (w : Nat) : extractBits (clr w 14 15) 27 27 = extractBits w 27 27 := by ebclr
 theorem nv_c14_28_28 (w : Nat) : extractBits (clr w 14 15) 28 28 = extractBits w 28 28 := by ebclr
 theorem nv_c14_29_29 (w : Nat) : extractBits (clr w 14 15) 29 29 = extractBits w 29 29 := by ebclr
 theorem nv_c14_30_30 (w : Nat) : extractBits (clr w 14 15) 30 30 = extractBits w 30 30 := by ebclr
 theorem nv_c14_31_31 (w : Nat) : extractBits (clr w 14 15) 31 31 = extractBits w 31 31 := by ebclr
-theorem nv_c14_self (w : Nat) : extractBits (clr w 14 15) 14 15 = 0 := by ebclr
-theorem nv_c22_0_7 (w : Nat) : extractBits (clr w 22 23) 0 7 = extractBits w 0 7 := by ebclr
-theorem nv_c22_8_10 (w : Nat) : extractBits (clr w 22 23) 8 10 = extractBits w 8 10 := by ebclr
-theorem nv_c22_11_12 (w : Nat) : extractBits (clr w 22 23) 11 12 = extractBits w 11 12 := by ebclr
-theorem nv_c22_13_13 (w : Nat) : extractBits (clr w 22 23) 13 13 = extractBits w 13 13 := by ebclr
-theorem nv_c22_14_15 (w : Nat) : extractBits (clr w 22 23) 14 15 = extractBits w 14 15 := by ebclr
-theorem nv_c22_16_18 (w : Nat) : extractBits (clr w 22 23) 16 18 = extractBits w 16 18 := by ebclr
-theorem nv_c22_19_19 (w : Nat) : extractBits (clr w 22 23) 19 19 = extractBits w 19 19 := by ebclr
-theorem nv_c22_20_20 (w : Nat) : extractBits (clr w 22 23) 20 20 = extractBits w 20 20 := by ebclr
-theorem nv_c22_21_21 (w : Nat) : extractBits (clr w 22 23) 21 21 = extractBits w 21 21 := by ebclr
-theorem nv_c22_24_26 (w : Nat) : extractBits (clr w 22 23) 24 26 = extractBits w 24 26 := by ebclr
-theorem nv_c22_27_27 (w : Nat) : extractBits (clr w 22 23) 27 27 = extractBits w 27 27 := by ebclr
-theorem nv_c22_28_28 (w : Nat) : extractBits (clr w 22 23) 28 28 = extractBits w 28 28 := by ebclr
-theorem nv_c22_29_29 (w : Nat) : extractBits (clr w 22 23) 29 29 = extractBits w 29 29 := by ebclr
-theorem nv_c22_30_30 (w : Nat) : extractBits (clr w 22 23) 30 30 = extractBits w 30 30 := by ebclr
-theorem nv_c22_31_31 (w : Nat) : extractBits (clr w 22 23) 31 31 = extractBits w 31 31 := by ebclr
-theorem nv_c22_self (w : Nat) : extractBits (clr w 22 23) 22 23 = 0 := by ebclr
+theorem nv_c22_0_7 (w : Nat) : extractBits (clr w 22 22) 0 7 = extractBits w 0 7 := by ebclr
+theorem nv_c22_8_10 (w : Nat) : extractBits (clr w 22 22) 8 10 = extractBits w 8 10 := by ebclr
+theorem nv_c22_11_12 (w : Nat) : extractBits (clr w 22 22) 11 12 = extractBits w 11 12 := by ebclr
+theorem nv_c22_13_13 (w : Nat) : extractBits (clr w 22 22) 13 13 = extractBits w 13 13 := by ebclr
+theorem nv_c22_14_15 (w : Nat) : extractBits (clr w 22 22) 14 15 = extractBits w 14 15 := by ebclr
+theorem nv_c22_16_18 (w : Nat) : extractBits (clr w 22 22) 16 18 = extractBits w 16 18 := by ebclr
+theorem nv_c22_19_19 (w : Nat) : extractBits (clr w 22 22) 19 19 = extractBits w 19 19 := by ebclr
+theorem nv_c22_20_20 (w : Nat) : extractBits (clr w 22 22) 20 20 = extractBits w 20 20 := by ebclr
+theorem nv_c22_21_21 (w : Nat) : extractBits (clr w 22 22) 21 21 = extractBits w 21 21 := by ebclr
+theorem nv_c22_self (w : Nat) : extractBits (clr w 22 22) 22 22 = 0 := by ebclr
+theorem nv_c22_23_23 (w : Nat) : extractBits (clr w 22 22) 23 23 = extractBits w 23 23 := by ebclr
+theorem nv_c22_24_26 (w : Nat) : extractBits (clr w 22 22) 24 26 = extractBits w 24 26 := by ebclr
+theorem nv_c22_27_27 (w : Nat) : extractBits (clr w 22 22) 27 27 = extractBits w 27 27 := by ebclr
+theorem nv_c22_28_28 (w : Nat) : extractBits (clr w 22 22) 28 28 = extractBits w 28 28 := by ebclr
+theorem nv_c22_29_29 (w : Nat) : extractBits (clr w 22 22) 29 29 = extractBits w 29 29 := by ebclr
+theorem nv_c22_30_30 (w : Nat) : extractBits (clr w 22 22) 30 30 = extractBits w 30 30 := by ebclr
+theorem nv_c22_31_31 (w : Nat) : extractBits (clr w 22 22) 31 31 = extractBits w 31 31 := by ebclr
+theorem nv_c30_0_7 (w : Nat) : extractBits (clr w 30 30) 0 7 = extractBits w 0 7 := by ebclr
+theorem nv_c30_8_10 (w : Nat) : extractBits (clr w 30 30) 8 10 = extractBits w 8 10 := by ebclr
+theorem nv_c30_11_12 (w : Nat) : extractBits (clr w 30 30) 11 12 = extractBits w 11 12 := by ebclr
+theorem nv_c30_13_13 (w : Nat) : extractBits (clr w 30 30) 13 13 = extractBits w 13 13 := by ebclr
+theorem nv_c30_14_15 (w : Nat) : extractBits (clr w 30 30) 14 15 = extractBits w 14 15 := by ebclr
+theorem nv_c30_16_18 (w : Nat) : extractBits (clr w 30 30) 16 18 = extractBits w 16 18 := by ebclr
+theorem nv_c30_19_19 (w : Nat) : extractBits (clr w 30 30) 19 19 = extractBits w 19 19 := by ebclr
+theorem nv_c30_20_20 (w : Nat) : extractBits (clr w 30 30) 20 20 = extractBits w 20 20 := by ebclr
+theorem nv_c30_21_21 (w : Nat) : extractBits (clr w 30 30) 21 21 = extractBits w 21 21 := by ebclr
+theorem nv_c30_22_22 (w : Nat) : extractBits (clr w 30 30) 22 22 = extractBits w 22 22 := by ebclr
+theorem nv_c30_23_23 (w : Nat) : extractBits (clr w 30 30) 23 23 = extractBits w 23 23 := by ebclr
+theorem nv_c30_24_26 (w : Nat) : extractBits (clr w 30 30) 24 26 = extractBits w 24 26 := by ebclr
+theorem nv_c30_27_27 (w : Nat) : extractBits (clr w 30 30) 27 27 = extractBits w 27 27 := by ebclr
+theorem nv_c30_28_28 (w : Nat) : extractBits (clr w 30 30) 28 28 = extractBits w 28 28 := by ebclr
+theorem nv_c30_29_29 (w : Nat) : extractBits (clr w 30 30) 29 29 = extractBits w 29 29 := by ebclr
+theorem nv_c30_self (w : Nat) : extractBits (clr w 30 30) 30 30 = 0 := by ebclr
+theorem nv_c30_31_31 (w : Nat) : extractBits (clr w 30 30) 31 31 = extractBits w 31 31 := by ebclr
 theorem nv_c11_0_7 (w : Nat) : extractBits (clr w 11 12) 0 7 = extractBits w 0 7 := by ebclr
 theorem nv_c11_8_10 (w : Nat) : extractBits (clr w 11 12) 8 10 = extractBits w 8 10 := by ebclr
+theorem nv_c11_self (w : Nat) : extractBits (clr w 11 12) 11 12 = 0 := by ebclr
 theorem nv_c11_13_13 (w : Nat) : extractBits (clr w 11 12) 13 13 = extractBits w 13 13 := by ebclr
 theorem nv_c11_14_15 (w : Nat) : extractBits (clr w 11 12) 14 15 = extractBits w 14 15 := by ebclr
 theorem nv_c11_16_18 (w : Nat) : extractBits (clr w 11 12) 16 18 = extractBits w 16 18 := by ebclr
 theorem nv_c11_19_19 (w : Nat) : extractBits (clr w 11 12) 19 19 = extractBits w 19 19 := by ebclr
 theorem nv_c11_20_20 (w : Nat) : extractBits (clr w 11 12) 20 20 = extractBits w 20 20 := by ebclr
 theorem nv_c11_21_21 (w : Nat) : extractBits (clr w 11 12) 21 21 = extractBits w 21 21 := by ebclr
-theorem nv_c11_22_23 (w : Nat) : extractBits (clr w 11 12) 22 23 = extractBits w 22 23 := by ebclr
+theorem nv_c11_22_22 (w : Nat) : extractBits (clr w 11 12) 22 22 = extractBits w 22 22 := by ebclr
+theorem nv_c11_23_23 (w : Nat) : extractBits (clr w 11 12) 23 23 = extractBits w 23 23 := by ebclr
 theorem nv_c11_24_26 (w : Nat) : extractBits (clr w 11 12) 24 26 = extractBits w 24 26 := by ebclr
 theorem nv_c11_27_27 (w : Nat) : extractBits (clr w 11 12) 27 27 = extractBits w 27 27 := by ebclr
 theorem nv_c11_28_28 (w : Nat) : extractBits (clr w 11 12) 28 28 = extractBits w 28 28 := by ebclr
 theorem nv_c11_29_29 (w : Nat) : extractBits (clr w 11 12) 29 29 = extractBits w 29 29 := by ebclr
 theorem nv_c11_30_30 (w : Nat) : extractBits (clr w 11 12) 30 30 = extractBits w 30 30 := by ebclr
 theorem nv_c11_31_31 (w : Nat) : extractBits (clr w 11 12) 31 31 = extractBits w 31 31 := by ebclr
-theorem nv_c11_self (w : Nat) : extractBits (clr w 11 12) 11 12 = 0 := by ebclr
 
 theorem nv_decomp (x : Nat) (hx : x < 2 ^ 32) :
-    x = extractBits x 0 7 + extractBits x 8 10 * 2 ^ 8 + extractBits x 11 12 * 2 ^ 11 + extractBits x 13 13 * 2 ^ 13 +
-      extractBits x 14 15 * 2 ^ 14 + extractBits x 16 18 * 2 ^ 16 + extractBits x 19 19 * 2 ^ 19 + extractBits x 20 20 * 2 ^ 20 +
-      extractBits x 21 21 * 2 ^ 21 + extractBits x 22 23 * 2 ^ 22 + extractBits x 24 26 * 2 ^ 24 + extractBits x 27 27 * 2 ^ 27 +
-      extractBits x 28 28 * 2 ^ 28 + extractBits x 29 29 * 2 ^ 29 + extractBits x 30 30 * 2 ^ 30 + extractBits x 31 31 * 2 ^ 31 := by
+    x = extractBits x 0 7 +
+      extractBits x 8 10 * 2 ^ 8 +
+      extractBits x 11 12 * 2 ^ 11 +
+      extractBits x 13 13 * 2 ^ 13 +
+      extractBits x 14 15 * 2 ^ 14 +
+      extractBits x 16 18 * 2 ^ 16 +
+      extractBits x 19 19 * 2 ^ 19 +
+      extractBits x 20 20 * 2 ^ 20 +
+      extractBits x 21 21 * 2 ^ 21 +
+      extractBits x 22 22 * 2 ^ 22 +
+      extractBits x 23 23 * 2 ^ 23 +
+      extractBits x 24 26 * 2 ^ 24 +
+      extractBits x 27 27 * 2 ^ 27 +
+      extractBits x 28 28 * 2 ^ 28 +
+      extractBits x 29 29 * 2 ^ 29 +
+      extractBits x 30 30 * 2 ^ 30 +
+      extractBits x 31 31 * 2 ^ 31 := by
   unfold extractBits; omega
 
 theorem nv_clr_le (w lo hi : Nat) : clr w lo hi ≤ w := Nat.sub_le _ _
 theorem nv_normSdwa_le (w : Nat) : normSdwa w ≤ w := by
   simp only [normSdwa]; split
+  · exact Nat.le_trans (nv_clr_le _ _ _) (Nat.le_trans (nv_clr_le _ _ _) (Nat.le_trans (nv_clr_le _ _ _) (nv_clr_le _ _ _)))
   · exact Nat.le_trans (nv_clr_le _ _ _) (Nat.le_trans (nv_clr_le _ _ _) (nv_clr_le _ _ _))
-  · exact Nat.le_trans (nv_clr_le _ _ _) (nv_clr_le _ _ _)
 
 theorem nv_sd_0_7 (w : Nat) : extractBits (normSdwa w) 0 7 = extractBits w 0 7 := by
-  simp only [normSdwa]; split <;> simp only [nv_c14_0_7, nv_c14_8_10, nv_c14_11_12, nv_c14_13_13, nv_c14_16_18, nv_c14_19_19, nv_c14_20_20, nv_c14_21_21, nv_c14_22_23,
-    nv_c14_24_26, nv_c14_27_27, nv_c14_28_28, nv_c14_29_29, nv_c14_30_30, nv_c14_31_31, nv_c14_self, nv_c22_0_7, nv_c22_8_10,
-    nv_c22_11_12, nv_c22_13_13, nv_c22_14_15, nv_c22_16_18, nv_c22_19_19, nv_c22_20_20, nv_c22_21_21, nv_c22_24_26, nv_c22_27_27,
-    nv_c22_28_28, nv_c22_29_29, nv_c22_30_30, nv_c22_31_31, nv_c22_self, nv_c11_0_7, nv_c11_8_10, nv_c11_13_13, nv_c11_14_15,
-    nv_c11_16_18, nv_c11_19_19, nv_c11_20_20, nv_c11_21_21, nv_c11_22_23, nv_c11_24_26, nv_c11_27_27, nv_c11_28_28, nv_c11_29_29,
-    nv_c11_30_30, nv_c11_31_31, nv_c11_self]
+  simp only [normSdwa]; split <;> simp_all only [nv_c14_0_7, nv_c14_8_10, nv_c14_11_12, nv_c14_13_13, nv_c14_self, nv_c14_16_18, nv_c14_19_19, nv_c14_20_20, nv_c14_21_21, nv_c14_22_22, nv_c14_23_23, nv_c14_24_26, nv_c14_27_27, nv_c14_28_28, nv_c14_29_29, nv_c14_30_30, nv_c14_31_31, nv_c22_0_7, nv_c22_8_10, nv_c22_11_12, nv_c22_13_13, nv_c22_14_15, nv_c22_16_18, nv_c22_19_19, nv_c22_20_20, nv_c22_21_21, nv_c22_self, nv_c22_23_23, nv_c22_24_26, nv_c22_27_27, nv_c22_28_28, nv_c22_29_29, nv_c22_30_30, nv_c22_31_31, nv_c30_0_7, nv_c30_8_10, nv_c30_11_12, nv_c30_13_13, nv_c30_14_15, nv_c30_16_18, nv_c30_19_19, nv_c30_20_20, nv_c30_21_21, nv_c30_22_22, nv_c30_23_23, nv_c30_24_26, nv_c30_27_27, nv_c30_28_28, nv_c30_29_29, nv_c30_self, nv_c30_31_31, nv_c11_0_7, nv_c11_8_10, nv_c11_self, nv_c11_13_13, nv_c11_14_15, nv_c11_16_18, nv_c11_19_19, nv_c11_20_20, nv_c11_21_21, nv_c11_22_22, nv_c11_23_23, nv_c11_24_26, nv_c11_27_27, nv_c11_28_28, nv_c11_29_29, nv_c11_30_30, nv_c11_31_31, beq_iff_eq, if_true, if_false]
 theorem nv_sd_8_10 (w : Nat) : extractBits (normSdwa w) 8 10 = extractBits w 8 10 := by
-  simp only [normSdwa]; split <;> simp only [nv_c14_0_7, nv_c14_8_10, nv_c14_11_12, nv_c14_13_13, nv_c14_16_18, nv_c14_19_19, nv_c14_20_20, nv_c14_21_21, nv_c14_22_23,
-    nv_c14_24_26, nv_c14_27_27, nv_c14_28_28, nv_c14_29_29, nv_c14_30_30, nv_c14_31_31, nv_c14_self, nv_c22_0_7, nv_c22_8_10,
-    nv_c22_11_12, nv_c22_13_13, nv_c22_14_15, nv_c22_16_18, nv_c22_19_19, nv_c22_20_20, nv_c22_21_21, nv_c22_24_26, nv_c22_27_27,
-    nv_c22_28_28, nv_c22_29_29, nv_c22_30_30, nv_c22_31_31, nv_c22_self, nv_c11_0_7, nv_c11_8_10, nv_c11_13_13, nv_c11_14_15,
-    nv_c11_16_18, nv_c11_19_19, nv_c11_20_20, nv_c11_21_21, nv_c11_22_23, nv_c11_24_26, nv_c11_27_27, nv_c11_28_28, nv_c11_29_29,
-    nv_c11_30_30, nv_c11_31_31, nv_c11_self]
-theorem nv_sd_13_13 (w : Nat) : extractBits (normSdwa w) 13 13 = extractBits w 13 13 := by
-  simp only [normSdwa]; split <;> simp only [nv_c14_0_7, nv_c14_8_10, nv_c14_11_12, nv_c14_13_13, nv_c14_16_18, nv_c14_19_19, nv_c14_20_20, nv_c14_21_21, nv_c14_22_23,
-    nv_c14_24_26, nv_c14_27_27, nv_c14_28_28, nv_c14_29_29, nv_c14_30_30, nv_c14_31_31, nv_c14_self, nv_c22_0_7, nv_c22_8_10,
-    nv_c22_11_12, nv_c22_13_13, nv_c22_14_15, nv_c22_16_18, nv_c22_19_19, nv_c22_20_20, nv_c22_21_21, nv_c22_24_26, nv_c22_27_27,
-    nv_c22_28_28, nv_c22_29_29, nv_c22_30_30, nv_c22_31_31, nv_c22_self, nv_c11_0_7, nv_c11_8_10, nv_c11_13_13, nv_c11_14_15,
-    nv_c11_16_18, nv_c11_19_19, nv_c11_20_20, nv_c11_21_21, nv_c11_22_23, nv_c11_24_26, nv_c11_27_27, nv_c11_28_28, nv_c11_29_29,
-    nv_c11_30_30, nv_c11_31_31, nv_c11_self]
-theorem nv_sd_16_18 (w : Nat) : extractBits (normSdwa w) 16 18 = extractBits w 16 18 := by
-  simp only [normSdwa]; split <;> simp only [nv_c14_0_7, nv_c14_8_10, nv_c14_11_12, nv_c14_13_13, nv_c14_16_18, nv_c14_19_19, nv_c14_20_20, nv_c14_21_21, nv_c14_22_23,
-    nv_c14_24_26, nv_c14_27_27, nv_c14_28_28, nv_c14_29_29, nv_c14_30_30, nv_c14_31_31, nv_c14_self, nv_c22_0_7, nv_c22_8_10,
-    nv_c22_11_12, nv_c22_13_13, nv_c22_14_15, nv_c22_16_18, nv_c22_19_19, nv_c22_20_20, nv_c22_21_21, nv_c22_24_26, nv_c22_27_27,
-    nv_c22_28_28, nv_c22_29_29, nv_c22_30_30, nv_c22_31_31, nv_c22_self, nv_c11_0_7, nv_c11_8_10, nv_c11_13_13, nv_c11_14_15,
-    nv_c11_16_18, nv_c11_19_19, nv_c11_20_20, nv_c11_21_21, nv_c11_22_23, nv_c11_24_26, nv_c11_27_27, nv_c11_28_28, nv_c11_29_29,
-    nv_c11_30_30, nv_c11_31_31, nv_c11_self]
-theorem nv_sd_19_19 (w : Nat) : extractBits (normSdwa w) 19 19 = extractBits w 19 19 := by
-  simp only [normSdwa]; split <;> simp only [nv_c14_0_7, nv_c14_8_10, nv_c14_11_12, nv_c14_13_13, nv_c14_16_18, nv_c14_19_19, nv_c14_20_20, nv_c14_21_21, nv_c14_22_23,
-    nv_c14_24_26, nv_c14_27_27, nv_c14_28_28, nv_c14_29_29, nv_c14_30_30, nv_c14_31_31, nv_c14_self, nv_c22_0_7, nv_c22_8_10,
-    nv_c22_11_12, nv_c22_13_13, nv_c22_14_15, nv_c22_16_18, nv_c22_19_19, nv_c22_20_20, nv_c22_21_21, nv_c22_24_26, nv_c22_27_27,
-    nv_c22_28_28, nv_c22_29_29, nv_c22_30_30, nv_c22_31_31, nv_c22_self, nv_c11_0_7, nv_c11_8_10, nv_c11_13_13, nv_c11_14_15,
-    nv_c11_16_18, nv_c11_19_19, nv_c11_20_20, nv_c11_21_21, nv_c11_22_23, nv_c11_24_26, nv_c11_27_27, nv_c11_28_28, nv_c11_29_29,
-    nv_c11_30_30, nv_c11_31_31, nv_c11_self]
-theorem nv_sd_20_20 (w : Nat) : extractBits (normSdwa w) 20 20 = extractBits w 20 20 := by
-  simp only [normSdwa]; split <;> simp only [nv_c14_0_7, nv_c14_8_10, nv_c14_11_12, nv_c14_13_13, nv_c14_16_18, nv_c14_19_19, nv_c14_20_20, nv_c14_21_21, nv_c14_22_23,
-    nv_c14_24_26, nv_c14_27_27, nv_c14_28_28, nv_c14_29_29, nv_c14_30_30, nv_c14_31_31, nv_c14_self, nv_c22_0_7, nv_c22_8_10,
-    nv_c22_11_12, nv_c22_13_13, nv_c22_14_15, nv_c22_16_18, nv_c22_19_19, nv_c22_20_20, nv_c22_21_21, nv_c22_24_26, nv_c22_27_27,
-    nv_c22_28_28, nv_c22_29_29, nv_c22_30_30, nv_c22_31_31, nv_c22_self, nv_c11_0_7, nv_c11_8_10, nv_c11_13_13, nv_c11_14_15,
-    nv_c11_16_18, nv_c11_19_19, nv_c11_20_20, nv_c11_21_21, nv_c11_22_23, nv_c11_24_26, nv_c11_27_27, nv_c11_28_28, nv_c11_29_29,
-    nv_c11_30_30, nv_c11_31_31, nv_c11_self]
-theorem nv_sd_21_21 (w : Nat) : extractBits (normSdwa w) 21 21 = extractBits w 21 21 := by
-  simp only [normSdwa]; split <;> simp only [nv_c14_0_7, nv_c14_8_10, nv_c14_11_12, nv_c14_13_13, nv_c14_16_18, nv_c14_19_19, nv_c14_20_20, nv_c14_21_21, nv_c14_22_23,
-    nv_c14_24_26, nv_c14_27_27, nv_c14_28_28, nv_c14_29_29, nv_c14_30_30, nv_c14_31_31, nv_c14_self, nv_c22_0_7, nv_c22_8_10,
-    nv_c22_11_12, nv_c22_13_13, nv_c22_14_15, nv_c22_16_18, nv_c22_19_19, nv_c22_20_20, nv_c22_21_21, nv_c22_24_26, nv_c22_27_27,
-    nv_c22_28_28, nv_c22_29_29, nv_c22_30_30, nv_c22_31_31, nv_c22_self, nv_c11_0_7, nv_c11_8_10, nv_c11_13_13, nv_c11_14_15,
-    nv_c11_16_18, nv_c11_19_19, nv_c11_20_20, nv_c11_21_21, nv_c11_22_23, nv_c11_24_26, nv_c11_27_27, nv_c11_28_28, nv_c11_29_29,
-    nv_c11_30_30, nv_c11_31_31, nv_c11_self]
-theorem nv_sd_24_26 (w : Nat) : extractBits (normSdwa w) 24 26 = extractBits w 24 26 := by
-  simp only [normSdwa]; split <;> simp only [nv_c14_0_7, nv_c14_8_10, nv_c14_11_12, nv_c14_13_13, nv_c14_16_18, nv_c14_19_19, nv_c14_20_20, nv_c14_21_21, nv_c14_22_23,
-    nv_c14_24_26, nv_c14_27_27, nv_c14_28_28, nv_c14_29_29, nv_c14_30_30, nv_c14_31_31, nv_c14_self, nv_c22_0_7, nv_c22_8_10,
-    nv_c22_11_12, nv_c22_13_13, nv_c22_14_15, nv_c22_16_18, nv_c22_19_19, nv_c22_20_20, nv_c22_21_21, nv_c22_24_26, nv_c22_27_27,
-    nv_c22_28_28, nv_c22_29_29, nv_c22_30_30, nv_c22_31_31, nv_c22_self, nv_c11_0_7, nv_c11_8_10, nv_c11_13_13, nv_c11_14_15,
-    nv_c11_16_18, nv_c11_19_19, nv_c11_20_20, nv_c11_21_21, nv_c11_22_23, nv_c11_24_26, nv_c11_27_27, nv_c11_28_28, nv_c11_29_29,
-    nv_c11_30_30, nv_c11_31_31, nv_c11_self]
-theorem nv_sd_27_27 (w : Nat) : extractBits (normSdwa w) 27 27 = extractBits w 27 27 := by
-  simp only [normSdwa]; split <;> simp only [nv_c14_0_7, nv_c14_8_10, nv_c14_11_12, nv_c14_13_13, nv_c14_16_18, nv_c14_19_19, nv_c14_20_20, nv_c14_21_21, nv_c14_22_23,
-    nv_c14_24_26, nv_c14_27_27, nv_c14_28_28, nv_c14_29_29, nv_c14_30_30, nv_c14_31_31, nv_c14_self, nv_c22_0_7, nv_c22_8_10,
-    nv_c22_11_12, nv_c22_13_13, nv_c22_14_15, nv_c22_16_18, nv_c22_19_19, nv_c22_20_20, nv_c22_21_21, nv_c22_24_26, nv_c22_27_27,
-    nv_c22_28_28, nv_c22_29_29, nv_c22_30_30, nv_c22_31_31, nv_c22_self, nv_c11_0_7, nv_c11_8_10, nv_c11_13_13, nv_c11_14_15,
-    nv_c11_16_18, nv_c11_19_19, nv_c11_20_20, nv_c11_21_21, nv_c11_22_23, nv_c11_24_26, nv_c11_27_27, nv_c11_28_28, nv_c11_29_29,
-    nv_c11_30_30, nv_c11_31_31, nv_c11_self]
-theorem nv_sd_28_28 (w : Nat) : extractBits (normSdwa w) 28 28 = extractBits w 28 28 := by
-  simp only [normSdwa]; split <;> simp only [nv_c14_0_7, nv_c14_8_10, nv_c14_11_12, nv_c14_13_13, nv_c14_16_18, nv_c14_19_19, nv_c14_20_20, nv_c14_21_21, nv_c14_22_23,
-    nv_c14_24_26, nv_c14_27_27, nv_c14_28_28, nv_c14_29_29, nv_c14_30_30, nv_c14_31_31, nv_c14_self, nv_c22_0_7, nv_c22_8_10,
-    nv_c22_11_12, nv_c22_13_13, nv_c22_14_15, nv_c22_16_18, nv_c22_19_19, nv_c22_20_20, nv_c22_21_21, nv_c22_24_26, nv_c22_27_27,
-    nv_c22_28_28, nv_c22_29_29, nv_c22_30_30, nv_c22_31_31, nv_c22_self, nv_c11_0_7, nv_c11_8_10, nv_c11_13_13, nv_c11_14_15,
-    nv_c11_16_18, nv_c11_19_19, nv_c11_20_20, nv_c11_21_21, nv_c11_22_23, nv_c11_24_26, nv_c11_27_27, nv_c11_28_28, nv_c11_29_29,
-    nv_c11_30_30, nv_c11_31_31, nv_c11_self]
-theorem nv_sd_29_29 (w : Nat) : extractBits (normSdwa w) 29 29 = extractBits w 29 29 := by
-  simp only [normSdwa]; split <;> simp only [nv_c14_0_7, nv_c14_8_10, nv_c14_11_12, nv_c14_13_13, nv_c14_16_18, nv_c14_19_19, nv_c14_20_20, nv_c14_21_21, nv_c14_22_23,
-    nv_c14_24_26, nv_c14_27_27, nv_c14_28_28, nv_c14_29_29, nv_c14_30_30, nv_c14_31_31, nv_c14_self, nv_c22_0_7, nv_c22_8_10,
-    nv_c22_11_12, nv_c22_13_13, nv_c22_14_15, nv_c22_16_18, nv_c22_19_19, nv_c22_20_20, nv_c22_21_21, nv_c22_24_26, nv_c22_27_27,
-    nv_c22_28_28, nv_c22_29_29, nv_c22_30_30, nv_c22_31_31, nv_c22_self, nv_c11_0_7, nv_c11_8_10, nv_c11_13_13, nv_c11_14_15,
-    nv_c11_16_18, nv_c11_19_19, nv_c11_20_20, nv_c11_21_21, nv_c11_22_23, nv_c11_24_26, nv_c11_27_27, nv_c11_28_28, nv_c11_29_29,
-    nv_c11_30_30, nv_c11_31_31, nv_c11_self]
-theorem nv_sd_30_30 (w : Nat) : extractBits (normSdwa w) 30 30 = extractBits w 30 30 := by
-  simp only [normSdwa]; split <;> simp only [nv_c14_0_7, nv_c14_8_10, nv_c14_11_12, nv_c14_13_13, nv_c14_16_18, nv_c14_19_19, nv_c14_20_20, nv_c14_21_21, nv_c14_22_23,
-    nv_c14_24_26, nv_c14_27_27, nv_c14_28_28, nv_c14_29_29, nv_c14_30_30, nv_c14_31_31, nv_c14_self, nv_c22_0_7, nv_c22_8_10,
-    nv_c22_11_12, nv_c22_13_13, nv_c22_14_15, nv_c22_16_18, nv_c22_19_19, nv_c22_20_20, nv_c22_21_21, nv_c22_24_26, nv_c22_27_27,
-    nv_c22_28_28, nv_c22_29_29, nv_c22_30_30, nv_c22_31_31, nv_c22_self, nv_c11_0_7, nv_c11_8_10, nv_c11_13_13, nv_c11_14_15,
-    nv_c11_16_18, nv_c11_19_19, nv_c11_20_20, nv_c11_21_21, nv_c11_22_23, nv_c11_24_26, nv_c11_27_27, nv_c11_28_28, nv_c11_29_29,
-    nv_c11_30_30, nv_c11_31_31, nv_c11_self]
-theorem nv_sd_31_31 (w : Nat) : extractBits (normSdwa w) 31 31 = extractBits w 31 31 := by
-  simp only [normSdwa]; split <;> simp only [nv_c14_0_7, nv_c14_8_10, nv_c14_11_12, nv_c14_13_13, nv_c14_16_18, nv_c14_19_19, nv_c14_20_20, nv_c14_21_21, nv_c14_22_23,
-    nv_c14_24_26, nv_c14_27_27, nv_c14_28_28, nv_c14_29_29, nv_c14_30_30, nv_c14_31_31, nv_c14_self, nv_c22_0_7, nv_c22_8_10,
-    nv_c22_11_12, nv_c22_13_13, nv_c22_14_15, nv_c22_16_18, nv_c22_19_19, nv_c22_20_20, nv_c22_21_21, nv_c22_24_26, nv_c22_27_27,
-    nv_c22_28_28, nv_c22_29_29, nv_c22_30_30, nv_c22_31_31, nv_c22_self, nv_c11_0_7, nv_c11_8_10, nv_c11_13_13, nv_c11_14_15,
-    nv_c11_16_18, nv_c11_19_19, nv_c11_20_20, nv_c11_21_21, nv_c11_22_23, nv_c11_24_26, nv_c11_27_27, nv_c11_28_28, nv_c11_29_29,
-    nv_c11_30_30, nv_c11_31_31, nv_c11_self]
-theorem nv_sd_14_15 (w : Nat) : extractBits (normSdwa w) 14 15 = 0 := by
-  simp only [normSdwa]; split <;> simp only [nv_c14_0_7, nv_c14_8_10, nv_c14_11_12, nv_c14_13_13, nv_c14_16_18, nv_c14_19_19, nv_c14_20_20, nv_c14_21_21, nv_c14_22_23,
-    nv_c14_24_26, nv_c14_27_27, nv_c14_28_28, nv_c14_29_29, nv_c14_30_30, nv_c14_31_31, nv_c14_self, nv_c22_0_7, nv_c22_8_10,
-    nv_c22_11_12, nv_c22_13_13, nv_c22_14_15, nv_c22_16_18, nv_c22_19_19, nv_c22_20_20, nv_c22_21_21, nv_c22_24_26, nv_c22_27_27,
-    nv_c22_28_28, nv_c22_29_29, nv_c22_30_30, nv_c22_31_31, nv_c22_self, nv_c11_0_7, nv_c11_8_10, nv_c11_13_13, nv_c11_14_15,
-    nv_c11_16_18, nv_c11_19_19, nv_c11_20_20, nv_c11_21_21, nv_c11_22_23, nv_c11_24_26, nv_c11_27_27, nv_c11_28_28, nv_c11_29_29,
-    nv_c11_30_30, nv_c11_31_31, nv_c11_self]
-theorem nv_sd_22_23 (w : Nat) : extractBits (normSdwa w) 22 23 = 0 := by
-  simp only [normSdwa]; split <;> simp only [nv_c14_0_7, nv_c14_8_10, nv_c14_11_12, nv_c14_13_13, nv_c14_16_18, nv_c14_19_19, nv_c14_20_20, nv_c14_21_21, nv_c14_22_23,
-    nv_c14_24_26, nv_c14_27_27, nv_c14_28_28, nv_c14_29_29, nv_c14_30_30, nv_c14_31_31, nv_c14_self, nv_c22_0_7, nv_c22_8_10,
-    nv_c22_11_12, nv_c22_13_13, nv_c22_14_15, nv_c22_16_18, nv_c22_19_19, nv_c22_20_20, nv_c22_21_21, nv_c22_24_26, nv_c22_27_27,
-    nv_c22_28_28, nv_c22_29_29, nv_c22_30_30, nv_c22_31_31, nv_c22_self, nv_c11_0_7, nv_c11_8_10, nv_c11_13_13, nv_c11_14_15,
-    nv_c11_16_18, nv_c11_19_19, nv_c11_20_20, nv_c11_21_21, nv_c11_22_23, nv_c11_24_26, nv_c11_27_27, nv_c11_28_28, nv_c11_29_29,
-    nv_c11_30_30, nv_c11_31_31, nv_c11_self]
+  simp only [normSdwa]; split <;> simp_all only [nv_c14_0_7, nv_c14_8_10, nv_c14_11_12, nv_c14_13_13, nv_c14_self, nv_c14_16_18, nv_c14_19_19, nv_c14_20_20, nv_c14_21_21, nv_c14_22_22, nv_c14_23_23, nv_c14_24_26, nv_c14_27_27, nv_c14_28_28, nv_c14_29_29, nv_c14_30_30, nv_c14_31_31, nv_c22_0_7, nv_c22_8_10, nv_c22_11_12, nv_c22_13_13, nv_c22_14_15, nv_c22_16_18, nv_c22_19_19, nv_c22_20_20, nv_c22_21_21, nv_c22_self, nv_c22_23_23, nv_c22_24_26, nv_c22_27_27, nv_c22_28_28, nv_c22_29_29, nv_c22_30_30, nv_c22_31_31, nv_c30_0_7, nv_c30_8_10, nv_c30_11_12, nv_c30_13_13, nv_c30_14_15, nv_c30_16_18, nv_c30_19_19, nv_c30_20_20, nv_c30_21_21, nv_c30_22_22, nv_c30_23_23, nv_c30_24_26, nv_c30_27_27, nv_c30_28_28, nv_c30_29_29, nv_c30_self, nv_c30_31_31, nv_c11_0_7, nv_c11_8_10, nv_c11_self, nv_c11_13_13, nv_c11_14_15, nv_c11_16_18, nv_c11_19_19, nv_c11_20_20, nv_c11_21_21, nv_c11_22_22, nv_c11_23_23, nv_c11_24_26, nv_c11_27_27, nv_c11_28_28, nv_c11_29_29, nv_c11_30_30, nv_c11_31_31, beq_iff_eq, if_true, if_false]
 theorem nv_sd_11_12 (w : Nat) : extractBits (normSdwa w) 11 12 = if extractBits w 11 12 == 3 then 0 else extractBits w 11 12 := by
-  simp only [normSdwa]; split <;> simp only [nv_c14_0_7, nv_c14_8_10, nv_c14_11_12, nv_c14_13_13, nv_c14_16_18, nv_c14_19_19, nv_c14_20_20, nv_c14_21_21, nv_c14_22_23,
-    nv_c14_24_26, nv_c14_27_27, nv_c14_28_28, nv_c14_29_29, nv_c14_30_30, nv_c14_31_31, nv_c14_self, nv_c22_0_7, nv_c22_8_10,
-    nv_c22_11_12, nv_c22_13_13, nv_c22_14_15, nv_c22_16_18, nv_c22_19_19, nv_c22_20_20, nv_c22_21_21, nv_c22_24_26, nv_c22_27_27,
-    nv_c22_28_28, nv_c22_29_29, nv_c22_30_30, nv_c22_31_31, nv_c22_self, nv_c11_0_7, nv_c11_8_10, nv_c11_13_13, nv_c11_14_15,
-    nv_c11_16_18, nv_c11_19_19, nv_c11_20_20, nv_c11_21_21, nv_c11_22_23, nv_c11_24_26, nv_c11_27_27, nv_c11_28_28, nv_c11_29_29,
-    nv_c11_30_30, nv_c11_31_31, nv_c11_self]
+  simp only [normSdwa]; split <;> simp_all only [nv_c14_0_7, nv_c14_8_10, nv_c14_11_12, nv_c14_13_13, nv_c14_self, nv_c14_16_18, nv_c14_19_19, nv_c14_20_20, nv_c14_21_21, nv_c14_22_22, nv_c14_23_23, nv_c14_24_26, nv_c14_27_27, nv_c14_28_28, nv_c14_29_29, nv_c14_30_30, nv_c14_31_31, nv_c22_0_7, nv_c22_8_10, nv_c22_11_12, nv_c22_13_13, nv_c22_14_15, nv_c22_16_18, nv_c22_19_19, nv_c22_20_20, nv_c22_21_21, nv_c22_self, nv_c22_23_23, nv_c22_24_26, nv_c22_27_27, nv_c22_28_28, nv_c22_29_29, nv_c22_30_30, nv_c22_31_31, nv_c30_0_7, nv_c30_8_10, nv_c30_11_12, nv_c30_13_13, nv_c30_14_15, nv_c30_16_18, nv_c30_19_19, nv_c30_20_20, nv_c30_21_21, nv_c30_22_22, nv_c30_23_23, nv_c30_24_26, nv_c30_27_27, nv_c30_28_28, nv_c30_29_29, nv_c30_self, nv_c30_31_31, nv_c11_0_7, nv_c11_8_10, nv_c11_self, nv_c11_13_13, nv_c11_14_15, nv_c11_16_18, nv_c11_19_19, nv_c11_20_20, nv_c11_21_21, nv_c11_22_22, nv_c11_23_23, nv_c11_24_26, nv_c11_27_27, nv_c11_28_28, nv_c11_29_29, nv_c11_30_30, nv_c11_31_31, beq_iff_eq, if_true, if_false]
+theorem nv_sd_13_13 (w : Nat) : extractBits (normSdwa w) 13 13 = extractBits w 13 13 := by
+  simp only [normSdwa]; split <;> simp_all only [nv_c14_0_7, nv_c14_8_10, nv_c14_11_12, nv_c14_13_13, nv_c14_self, nv_c14_16_18, nv_c14_19_19, nv_c14_20_20, nv_c14_21_21, nv_c14_22_22, nv_c14_23_23, nv_c14_24_26, nv_c14_27_27, nv_c14_28_28, nv_c14_29_29, nv_c14_30_30, nv_c14_31_31, nv_c22_0_7, nv_c22_8_10, nv_c22_11_12, nv_c22_13_13, nv_c22_14_15, nv_c22_16_18, nv_c22_19_19, nv_c22_20_20, nv_c22_21_21, nv_c22_self, nv_c22_23_23, nv_c22_24_26, nv_c22_27_27, nv_c22_28_28, nv_c22_29_29, nv_c22_30_30, nv_c22_31_31, nv_c30_0_7, nv_c30_8_10, nv_c30_11_12, nv_c30_13_13, nv_c30_14_15, nv_c30_16_18, nv_c30_19_19, nv_c30_20_20, nv_c30_21_21, nv_c30_22_22, nv_c30_23_23, nv_c30_24_26, nv_c30_27_27, nv_c30_28_28, nv_c30_29_29, nv_c30_self, nv_c30_31_31, nv_c11_0_7, nv_c11_8_10, nv_c11_self, nv_c11_13_13, nv_c11_14_15, nv_c11_16_18, nv_c11_19_19, nv_c11_20_20, nv_c11_21_21, nv_c11_22_22, nv_c11_23_23, nv_c11_24_26, nv_c11_27_27, nv_c11_28_28, nv_c11_29_29, nv_c11_30_30, nv_c11_31_31, beq_iff_eq, if_true, if_false]
+theorem nv_sd_14_15 (w : Nat) : extractBits (normSdwa w) 14 15 = 0 := by
+  simp only [normSdwa]; split <;> simp_all only [nv_c14_0_7, nv_c14_8_10, nv_c14_11_12, nv_c14_13_13, nv_c14_self, nv_c14_16_18, nv_c14_19_19, nv_c14_20_20, nv_c14_21_21, nv_c14_22_22, nv_c14_23_23, nv_c14_24_26, nv_c14_27_27, nv_c14_28_28, nv_c14_29_29, nv_c14_30_30, nv_c14_31_31, nv_c22_0_7, nv_c22_8_10, nv_c22_11_12, nv_c22_13_13, nv_c22_14_15, nv_c22_16_18, nv_c22_19_19, nv_c22_20_20, nv_c22_21_21, nv_c22_self, nv_c22_23_23, nv_c22_24_26, nv_c22_27_27, nv_c22_28_28, nv_c22_29_29, nv_c22_30_30, nv_c22_31_31, nv_c30_0_7, nv_c30_8_10, nv_c30_11_12, nv_c30_13_13, nv_c30_14_15, nv_c30_16_18, nv_c30_19_19, nv_c30_20_20, nv_c30_21_21, nv_c30_22_22, nv_c30_23_23, nv_c30_24_26, nv_c30_27_27, nv_c30_28_28, nv_c30_29_29, nv_c30_self, nv_c30_31_31, nv_c11_0_7, nv_c11_8_10, nv_c11_self, nv_c11_13_13, nv_c11_14_15, nv_c11_16_18, nv_c11_19_19, nv_c11_20_20, nv_c11_21_21, nv_c11_22_22, nv_c11_23_23, nv_c11_24_26, nv_c11_27_27, nv_c11_28_28, nv_c11_29_29, nv_c11_30_30, nv_c11_31_31, beq_iff_eq, if_true, if_false]
+theorem nv_sd_16_18 (w : Nat) : extractBits (normSdwa w) 16 18 = extractBits w 16 18 := by
+  simp only [normSdwa]; split <;> simp_all only [nv_c14_0_7, nv_c14_8_10, nv_c14_11_12, nv_c14_13_13, nv_c14_self, nv_c14_16_18, nv_c14_19_19, nv_c14_20_20, nv_c14_21_21, nv_c14_22_22, nv_c14_23_23, nv_c14_24_26, nv_c14_27_27, nv_c14_28_28, nv_c14_29_29, nv_c14_30_30, nv_c14_31_31, nv_c22_0_7, nv_c22_8_10, nv_c22_11_12, nv_c22_13_13, nv_c22_14_15, nv_c22_16_18, nv_c22_19_19, nv_c22_20_20, nv_c22_21_21, nv_c22_self, nv_c22_23_23, nv_c22_24_26, nv_c22_27_27, nv_c22_28_28, nv_c22_29_29, nv_c22_30_30, nv_c22_31_31, nv_c30_0_7, nv_c30_8_10, nv_c30_11_12, nv_c30_13_13, nv_c30_14_15, nv_c30_16_18, nv_c30_19_19, nv_c30_20_20, nv_c30_21_21, nv_c30_22_22, nv_c30_23_23, nv_c30_24_26, nv_c30_27_27, nv_c30_28_28, nv_c30_29_29, nv_c30_self, nv_c30_31_31, nv_c11_0_7, nv_c11_8_10, nv_c11_self, nv_c11_13_13, nv_c11_14_15, nv_c11_16_18, nv_c11_19_19, nv_c11_20_20, nv_c11_21_21, nv_c11_22_22, nv_c11_23_23, nv_c11_24_26, nv_c11_27_27, nv_c11_28_28, nv_c11_29_29, nv_c11_30_30, nv_c11_31_31, beq_iff_eq, if_true, if_false]
+theorem nv_sd_19_19 (w : Nat) : extractBits (normSdwa w) 19 19 = extractBits w 19 19 := by
+  simp only [normSdwa]; split <;> simp_all only [nv_c14_0_7, nv_c14_8_10, nv_c14_11_12, nv_c14_13_13, nv_c14_self, nv_c14_16_18, nv_c14_19_19, nv_c14_20_20, nv_c14_21_21, nv_c14_22_22, nv_c14_23_23, nv_c14_24_26, nv_c14_27_27, nv_c14_28_28, nv_c14_29_29, nv_c14_30_30, nv_c14_31_31, nv_c22_0_7, nv_c22_8_10, nv_c22_11_12, nv_c22_13_13, nv_c22_14_15, nv_c22_16_18, nv_c22_19_19, nv_c22_20_20, nv_c22_21_21, nv_c22_self, nv_c22_23_23, nv_c22_24_26, nv_c22_27_27, nv_c22_28_28, nv_c22_29_29, nv_c22_30_30, nv_c22_31_31, nv_c30_0_7, nv_c30_8_10, nv_c30_11_12, nv_c30_13_13, nv_c30_14_15, nv_c30_16_18, nv_c30_19_19, nv_c30_20_20, nv_c30_21_21, nv_c30_22_22, nv_c30_23_23, nv_c30_24_26, nv_c30_27_27, nv_c30_28_28, nv_c30_29_29, nv_c30_self, nv_c30_31_31, nv_c11_0_7, nv_c11_8_10, nv_c11_self, nv_c11_13_13, nv_c11_14_15, nv_c11_16_18, nv_c11_19_19, nv_c11_20_20, nv_c11_21_21, nv_c11_22_22, nv_c11_23_23, nv_c11_24_26, nv_c11_27_27, nv_c11_28_28, nv_c11_29_29, nv_c11_30_30, nv_c11_31_31, beq_iff_eq, if_true, if_false]
+theorem nv_sd_20_20 (w : Nat) : extractBits (normSdwa w) 20 20 = extractBits w 20 20 := by
+  simp only [normSdwa]; split <;> simp_all only [nv_c14_0_7, nv_c14_8_10, nv_c14_11_12, nv_c14_13_13, nv_c14_self, nv_c14_16_18, nv_c14_19_19, nv_c14_20_20, nv_c14_21_21, nv_c14_22_22, nv_c14_23_23, nv_c14_24_26, nv_c14_27_27, nv_c14_28_28, nv_c14_29_29, nv_c14_30_30, nv_c14_31_31, nv_c22_0_7, nv_c22_8_10, nv_c22_11_12, nv_c22_13_13, nv_c22_14_15, nv_c22_16_18, nv_c22_19_19, nv_c22_20_20, nv_c22_21_21, nv_c22_self, nv_c22_23_23, nv_c22_24_26, nv_c22_27_27, nv_c22_28_28, nv_c22_29_29, nv_c22_30_30, nv_c22_31_31, nv_c30_0_7, nv_c30_8_10, nv_c30_11_12, nv_c30_13_13, nv_c30_14_15, nv_c30_16_18, nv_c30_19_19, nv_c30_20_20, nv_c30_21_21, nv_c30_22_22, nv_c30_23_23, nv_c30_24_26, nv_c30_27_27, nv_c30_28_28, nv_c30_29_29, nv_c30_self, nv_c30_31_31, nv_c11_0_7, nv_c11_8_10, nv_c11_self, nv_c11_13_13, nv_c11_14_15, nv_c11_16_18, nv_c11_19_19, nv_c11_20_20, nv_c11_21_21, nv_c11_22_22, nv_c11_23_23, nv_c11_24_26, nv_c11_27_27, nv_c11_28_28, nv_c11_29_29, nv_c11_30_30, nv_c11_31_31, beq_iff_eq, if_true, if_false]
+theorem nv_sd_21_21 (w : Nat) : extractBits (normSdwa w) 21 21 = extractBits w 21 21 := by
+  simp only [normSdwa]; split <;> simp_all only [nv_c14_0_7, nv_c14_8_10, nv_c14_11_12, nv_c14_13_13, nv_c14_self, nv_c14_16_18, nv_c14_19_19, nv_c14_20_20, nv_c14_21_21, nv_c14_22_22, nv_c14_23_23, nv_c14_24_26, nv_c14_27_27, nv_c14_28_28, nv_c14_29_29, nv_c14_30_30, nv_c14_31_31, nv_c22_0_7, nv_c22_8_10, nv_c22_11_12, nv_c22_13_13, nv_c22_14_15, nv_c22_16_18, nv_c22_19_19, nv_c22_20_20, nv_c22_21_21, nv_c22_self, nv_c22_23_23, nv_c22_24_26, nv_c22_27_27, nv_c22_28_28, nv_c22_29_29, nv_c22_30_30, nv_c22_31_31, nv_c30_0_7, nv_c30_8_10, nv_c30_11_12, nv_c30_13_13, nv_c30_14_15, nv_c30_16_18, nv_c30_19_19, nv_c30_20_20, nv_c30_21_21, nv_c30_22_22, nv_c30_23_23, nv_c30_24_26, nv_c30_27_27, nv_c30_28_28, nv_c30_29_29, nv_c30_self, nv_c30_31_31, nv_c11_0_7, nv_c11_8_10, nv_c11_self, nv_c11_13_13, nv_c11_14_15, nv_c11_16_18, nv_c11_19_19, nv_c11_20_20, nv_c11_21_21, nv_c11_22_22, nv_c11_23_23, nv_c11_24_26, nv_c11_27_27, nv_c11_28_28, nv_c11_29_29, nv_c11_30_30, nv_c11_31_31, beq_iff_eq, if_true, if_false]
+theorem nv_sd_22_22 (w : Nat) : extractBits (normSdwa w) 22 22 = 0 := by
+  simp only [normSdwa]; split <;> simp_all only [nv_c14_0_7, nv_c14_8_10, nv_c14_11_12, nv_c14_13_13, nv_c14_self, nv_c14_16_18, nv_c14_19_19, nv_c14_20_20, nv_c14_21_21, nv_c14_22_22, nv_c14_23_23, nv_c14_24_26, nv_c14_27_27, nv_c14_28_28, nv_c14_29_29, nv_c14_30_30, nv_c14_31_31, nv_c22_0_7, nv_c22_8_10, nv_c22_11_12, nv_c22_13_13, nv_c22_14_15, nv_c22_16_18, nv_c22_19_19, nv_c22_20_20, nv_c22_21_21, nv_c22_self, nv_c22_23_23, nv_c22_24_26, nv_c22_27_27, nv_c22_28_28, nv_c22_29_29, nv_c22_30_30, nv_c22_31_31, nv_c30_0_7, nv_c30_8_10, nv_c30_11_12, nv_c30_13_13, nv_c30_14_15, nv_c30_16_18, nv_c30_19_19, nv_c30_20_20, nv_c30_21_21, nv_c30_22_22, nv_c30_23_23, nv_c30_24_26, nv_c30_27_27, nv_c30_28_28, nv_c30_29_29, nv_c30_self, nv_c30_31_31, nv_c11_0_7, nv_c11_8_10, nv_c11_self, nv_c11_13_13, nv_c11_14_15, nv_c11_16_18, nv_c11_19_19, nv_c11_20_20, nv_c11_21_21, nv_c11_22_22, nv_c11_23_23, nv_c11_24_26, nv_c11_27_27, nv_c11_28_28, nv_c11_29_29, nv_c11_30_30, nv_c11_31_31, beq_iff_eq, if_true, if_false]
+theorem nv_sd_23_23 (w : Nat) : extractBits (normSdwa w) 23 23 = extractBits w 23 23 := by
+  simp only [normSdwa]; split <;> simp_all only [nv_c14_0_7, nv_c14_8_10, nv_c14_11_12, nv_c14_13_13, nv_c14_self, nv_c14_16_18, nv_c14_19_19, nv_c14_20_20, nv_c14_21_21, nv_c14_22_22, nv_c14_23_23, nv_c14_24_26, nv_c14_27_27, nv_c14_28_28, nv_c14_29_29, nv_c14_30_30, nv_c14_31_31, nv_c22_0_7, nv_c22_8_10, nv_c22_11_12, nv_c22_13_13, nv_c22_14_15, nv_c22_16_18, nv_c22_19_19, nv_c22_20_20, nv_c22_21_21, nv_c22_self, nv_c22_23_23, nv_c22_24_26, nv_c22_27_27, nv_c22_28_28, nv_c22_29_29, nv_c22_30_30, nv_c22_31_31, nv_c30_0_7, nv_c30_8_10, nv_c30_11_12, nv_c30_13_13, nv_c30_14_15, nv_c30_16_18, nv_c30_19_19, nv_c30_20_20, nv_c30_21_21, nv_c30_22_22, nv_c30_23_23, nv_c30_24_26, nv_c30_27_27, nv_c30_28_28, nv_c30_29_29, nv_c30_self, nv_c30_31_31, nv_c11_0_7, nv_c11_8_10, nv_c11_self, nv_c11_13_13, nv_c11_14_15, nv_c11_16_18, nv_c11_19_19, nv_c11_20_20, nv_c11_21_21, nv_c11_22_22, nv_c11_23_23, nv_c11_24_26, nv_c11_27_27, nv_c11_28_28, nv_c11_29_29, nv_c11_30_30, nv_c11_31_31, beq_iff_eq, if_true, if_false]
+theorem nv_sd_24_26 (w : Nat) : extractBits (normSdwa w) 24 26 = extractBits w 24 26 := by
+  simp only [normSdwa]; split <;> simp_all only [nv_c14_0_7, nv_c14_8_10, nv_c14_11_12, nv_c14_13_13, nv_c14_self, nv_c14_16_18, nv_c14_19_19, nv_c14_20_20, nv_c14_21_21, nv_c14_22_22, nv_c14_23_23, nv_c14_24_26, nv_c14_27_27, nv_c14_28_28, nv_c14_29_29, nv_c14_30_30, nv_c14_31_31, nv_c22_0_7, nv_c22_8_10, nv_c22_11_12, nv_c22_13_13, nv_c22_14_15, nv_c22_16_18, nv_c22_19_19, nv_c22_20_20, nv_c22_21_21, nv_c22_self, nv_c22_23_23, nv_c22_24_26, nv_c22_27_27, nv_c22_28_28, nv_c22_29_29, nv_c22_30_30, nv_c22_31_31, nv_c30_0_7, nv_c30_8_10, nv_c30_11_12, nv_c30_13_13, nv_c30_14_15, nv_c30_16_18, nv_c30_19_19, nv_c30_20_20, nv_c30_21_21, nv_c30_22_22, nv_c30_23_23, nv_c30_24_26, nv_c30_27_27, nv_c30_28_28, nv_c30_29_29, nv_c30_self, nv_c30_31_31, nv_c11_0_7, nv_c11_8_10, nv_c11_self, nv_c11_13_13, nv_c11_14_15, nv_c11_16_18, nv_c11_19_19, nv_c11_20_20, nv_c11_21_21, nv_c11_22_22, nv_c11_23_23, nv_c11_24_26, nv_c11_27_27, nv_c11_28_28, nv_c11_29_29, nv_c11_30_30, nv_c11_31_31, beq_iff_eq, if_true, if_false]
+theorem nv_sd_27_27 (w : Nat) : extractBits (normSdwa w) 27 27 = extractBits w 27 27 := by
+  simp only [normSdwa]; split <;> simp_all only [nv_c14_0_7, nv_c14_8_10, nv_c14_11_12, nv_c14_13_13, nv_c14_self, nv_c14_16_18, nv_c14_19_19, nv_c14_20_20, nv_c14_21_21, nv_c14_22_22, nv_c14_23_23, nv_c14_24_26, nv_c14_27_27, nv_c14_28_28, nv_c14_29_29, nv_c14_30_30, nv_c14_31_31, nv_c22_0_7, nv_c22_8_10, nv_c22_11_12, nv_c22_13_13, nv_c22_14_15, nv_c22_16_18, nv_c22_19_19, nv_c22_20_20, nv_c22_21_21, nv_c22_self, nv_c22_23_23, nv_c22_24_26, nv_c22_27_27, nv_c22_28_28, nv_c22_29_29, nv_c22_30_30, nv_c22_31_31, nv_c30_0_7, nv_c30_8_10, nv_c30_11_12, nv_c30_13_13, nv_c30_14_15, nv_c30_16_18, nv_c30_19_19, nv_c30_20_20, nv_c30_21_21, nv_c30_22_22, nv_c30_23_23, nv_c30_24_26, nv_c30_27_27, nv_c30_28_28, nv_c30_29_29, nv_c30_self, nv_c30_31_31, nv_c11_0_7, nv_c11_8_10, nv_c11_self, nv_c11_13_13, nv_c11_14_15, nv_c11_16_18, nv_c11_19_19, nv_c11_20_20, nv_c11_21_21, nv_c11_22_22, nv_c11_23_23, nv_c11_24_26, nv_c11_27_27, nv_c11_28_28, nv_c11_29_29, nv_c11_30_30, nv_c11_31_31, beq_iff_eq, if_true, if_false]
+theorem nv_sd_28_28 (w : Nat) : extractBits (normSdwa w) 28 28 = extractBits w 28 28 := by
+  simp only [normSdwa]; split <;> simp_all only [nv_c14_0_7, nv_c14_8_10, nv_c14_11_12, nv_c14_13_13, nv_c14_self, nv_c14_16_18, nv_c14_19_19, nv_c14_20_20, nv_c14_21_21, nv_c14_22_22, nv_c14_23_23, nv_c14_24_26, nv_c14_27_27, nv_c14_28_28, nv_c14_29_29, nv_c14_30_30, nv_c14_31_31, nv_c22_0_7, nv_c22_8_10, nv_c22_11_12, nv_c22_13_13, nv_c22_14_15, nv_c22_16_18, nv_c22_19_19, nv_c22_20_20, nv_c22_21_21, nv_c22_self, nv_c22_23_23, nv_c22_24_26, nv_c22_27_27, nv_c22_28_28, nv_c22_29_29, nv_c22_30_30, nv_c22_31_31, nv_c30_0_7, nv_c30_8_10, nv_c30_11_12, nv_c30_13_13, nv_c30_14_15, nv_c30_16_18, nv_c30_19_19, nv_c30_20_20, nv_c30_21_21, nv_c30_22_22, nv_c30_23_23, nv_c30_24_26, nv_c30_27_27, nv_c30_28_28, nv_c30_29_29, nv_c30_self, nv_c30_31_31, nv_c11_0_7, nv_c11_8_10, nv_c11_self, nv_c11_13_13, nv_c11_14_15, nv_c11_16_18, nv_c11_19_19, nv_c11_20_20, nv_c11_21_21, nv_c11_22_22, nv_c11_23_23, nv_c11_24_26, nv_c11_27_27, nv_c11_28_28, nv_c11_29_29, nv_c11_30_30, nv_c11_31_31, beq_iff_eq, if_true, if_false]
+theorem nv_sd_29_29 (w : Nat) : extractBits (normSdwa w) 29 29 = extractBits w 29 29 := by
+  simp only [normSdwa]; split <;> simp_all only [nv_c14_0_7, nv_c14_8_10, nv_c14_11_12, nv_c14_13_13, nv_c14_self, nv_c14_16_18, nv_c14_19_19, nv_c14_20_20, nv_c14_21_21, nv_c14_22_22, nv_c14_23_23, nv_c14_24_26, nv_c14_27_27, nv_c14_28_28, nv_c14_29_29, nv_c14_30_30, nv_c14_31_31, nv_c22_0_7, nv_c22_8_10, nv_c22_11_12, nv_c22_13_13, nv_c22_14_15, nv_c22_16_18, nv_c22_19_19, nv_c22_20_20, nv_c22_21_21, nv_c22_self, nv_c22_23_23, nv_c22_24_26, nv_c22_27_27, nv_c22_28_28, nv_c22_29_29, nv_c22_30_30, nv_c22_31_31, nv_c30_0_7, nv_c30_8_10, nv_c30_11_12, nv_c30_13_13, nv_c30_14_15, nv_c30_16_18, nv_c30_19_19, nv_c30_20_20, nv_c30_21_21, nv_c30_22_22, nv_c30_23_23, nv_c30_24_26, nv_c30_27_27, nv_c30_28_28, nv_c30_29_29, nv_c30_self, nv_c30_31_31, nv_c11_0_7, nv_c11_8_10, nv_c11_self, nv_c11_13_13, nv_c11_14_15, nv_c11_16_18, nv_c11_19_19, nv_c11_20_20, nv_c11_21_21, nv_c11_22_22, nv_c11_23_23, nv_c11_24_26, nv_c11_27_27, nv_c11_28_28, nv_c11_29_29, nv_c11_30_30, nv_c11_31_31, beq_iff_eq, if_true, if_false]
+theorem nv_sd_30_30 (w : Nat) : extractBits (normSdwa w) 30 30 = 0 := by
+  simp only [normSdwa]; split <;> simp_all only [nv_c14_0_7, nv_c14_8_10, nv_c14_11_12, nv_c14_13_13, nv_c14_self, nv_c14_16_18, nv_c14_19_19, nv_c14_20_20, nv_c14_21_21, nv_c14_22_22, nv_c14_23_23, nv_c14_24_26, nv_c14_27_27, nv_c14_28_28, nv_c14_29_29, nv_c14_30_30, nv_c14_31_31, nv_c22_0_7, nv_c22_8_10, nv_c22_11_12, nv_c22_13_13, nv_c22_14_15, nv_c22_16_18, nv_c22_19_19, nv_c22_20_20, nv_c22_21_21, nv_c22_self, nv_c22_23_23, nv_c22_24_26, nv_c22_27_27, nv_c22_28_28, nv_c22_29_29, nv_c22_30_30, nv_c22_31_31, nv_c30_0_7, nv_c30_8_10, nv_c30_11_12, nv_c30_13_13, nv_c30_14_15, nv_c30_16_18, nv_c30_19_19, nv_c30_20_20, nv_c30_21_21, nv_c30_22_22, nv_c30_23_23, nv_c30_24_26, nv_c30_27_27, nv_c30_28_28, nv_c30_29_29, nv_c30_self, nv_c30_31_31, nv_c11_0_7, nv_c11_8_10, nv_c11_self, nv_c11_13_13, nv_c11_14_15, nv_c11_16_18, nv_c11_19_19, nv_c11_20_20, nv_c11_21_21, nv_c11_22_22, nv_c11_23_23, nv_c11_24_26, nv_c11_27_27, nv_c11_28_28, nv_c11_29_29, nv_c11_30_30, nv_c11_31_31, beq_iff_eq, if_true, if_false]
+theorem nv_sd_31_31 (w : Nat) : extractBits (normSdwa w) 31 31 = extractBits w 31 31 := by
+  simp only [normSdwa]; split <;> simp_all only [nv_c14_0_7, nv_c14_8_10, nv_c14_11_12, nv_c14_13_13, nv_c14_self, nv_c14_16_18, nv_c14_19_19, nv_c14_20_20, nv_c14_21_21, nv_c14_22_22, nv_c14_23_23, nv_c14_24_26, nv_c14_27_27, nv_c14_28_28, nv_c14_29_29, nv_c14_30_30, nv_c14_31_31, nv_c22_0_7, nv_c22_8_10, nv_c22_11_12, nv_c22_13_13, nv_c22_14_15, nv_c22_16_18, nv_c22_19_19, nv_c22_20_20, nv_c22_21_21, nv_c22_self, nv_c22_23_23, nv_c22_24_26, nv_c22_27_27, nv_c22_28_28, nv_c22_29_29, nv_c22_30_30, nv_c22_31_31, nv_c30_0_7, nv_c30_8_10, nv_c30_11_12, nv_c30_13_13, nv_c30_14_15, nv_c30_16_18, nv_c30_19_19, nv_c30_20_20, nv_c30_21_21, nv_c30_22_22, nv_c30_23_23, nv_c30_24_26, nv_c30_27_27, nv_c30_28_28, nv_c30_29_29, nv_c30_self, nv_c30_31_31, nv_c11_0_7, nv_c11_8_10, nv_c11_self, nv_c11_13_13, nv_c11_14_15, nv_c11_16_18, nv_c11_19_19, nv_c11_20_20, nv_c11_21_21, nv_c11_22_22, nv_c11_23_23, nv_c11_24_26, nv_c11_27_27, nv_c11_28_28, nv_c11_29_29, nv_c11_30_30, nv_c11_31_31, beq_iff_eq, if_true, if_false]
 theorem nv_sd_du (w : Nat) : (if extractBits (normSdwa w) 11 12 == 3 then 0 else extractBits (normSdwa w) 11 12) =
     (if extractBits w 11 12 == 3 then 0 else extractBits w 11 12) := by
   rw [nv_sd_11_12]
@@ -217,13 +172,13 @@ theorem nv_sd_du (w : Nat) : (if extractBits (normSdwa w) 11 12 == 3 then 0 else
 theorem nv_sdwa_arith (w : Nat) (hw : w < 2 ^ 32)
     (e13 : extractBits w 13 13 = 0) (e19 : extractBits w 19 19 = 0) (e20 : extractBits w 20 20 = 0)
     (e21 : extractBits w 21 21 = 0) (e27 : extractBits w 27 27 = 0) (e28 : extractBits w 28 28 = 0)
-    (e29 : extractBits w 29 29 = 0) (e30 : extractBits w 30 30 = 0) :
-    extractBits w 31 31 * 2 ^ 31 + extractBits w 24 26 * 2 ^ 24 + 0 * 2 ^ 23 + extractBits w 16 18 * 2 ^ 16 +
+    (e29 : extractBits w 29 29 = 0) :
+    extractBits w 31 31 * 2 ^ 31 + extractBits w 24 26 * 2 ^ 24 + extractBits w 23 23 * 2 ^ 23 + extractBits w 16 18 * 2 ^ 16 +
       (if extractBits w 11 12 == 3 then 0 else extractBits w 11 12) * 2 ^ 11 + extractBits w 8 10 * 2 ^ 8 + extractBits w 0 7
     = normSdwa w := by
   have hd := nv_decomp (normSdwa w) (Nat.lt_of_le_of_lt (nv_normSdwa_le w) hw)
   simp only [nv_sd_0_7, nv_sd_8_10, nv_sd_11_12, nv_sd_13_13, nv_sd_14_15, nv_sd_16_18, nv_sd_19_19, nv_sd_20_20, nv_sd_21_21,
-    nv_sd_22_23, nv_sd_24_26, nv_sd_27_27, nv_sd_28_28, nv_sd_29_29, nv_sd_30_30, nv_sd_31_31, e13, e19, e20, e21, e27, e28, e29, e30] at hd
+    nv_sd_22_22, nv_sd_23_23, nv_sd_24_26, nv_sd_27_27, nv_sd_28_28, nv_sd_29_29, nv_sd_30_30, nv_sd_31_31, e13, e19, e20, e21, e27, e28, e29] at hd
   generalize normSdwa w = n at hd ⊢
   generalize (if extractBits w 11 12 == 3 then 0 else extractBits w 11 12) = du at hd ⊢
   omega
@@ -388,7 +343,7 @@ theorem norm_vop2 (c : Bool) (f : Format) (row : Row) (w0 : Nat) (w1? : Option N
     | none => simp only [Option.map_none]
     | some w1 =>
       simp only [Option.map_some, nv_sd_0_7, nv_sd_8_10, nv_sd_13_13, nv_sd_16_18, nv_sd_19_19, nv_sd_20_20, nv_sd_21_21,
-        nv_sd_24_26, nv_sd_27_27, nv_sd_28_28, nv_sd_29_29, nv_sd_30_30, nv_sd_31_31, nv_sd_du]
+        nv_sd_23_23, nv_sd_24_26, nv_sd_27_27, nv_sd_28_28, nv_sd_29_29, nv_sd_31_31, nv_sd_du]
   · have hb9 : (extractBits w0 0 8 == 249) = false := by simpa using h249
     simp only [hb9, Bool.false_eq_true, if_false]
     by_cases hu : (extractBits w0 0 8 == 255 || isKOpcode row.opcode) = true
@@ -409,7 +364,7 @@ theorem norm_vop2 (c : Bool) (f : Format) (row : Row) (w0 : Nat) (w1? : Option N
 theorem nv_desc_vop2_sdwa (c : Bool) (f : Format) (row : Row) (w0 w1 : Nat) (i : Inst)
     (hf : f.ft = FT_VOP2) (hsz : f.size = 4) (hw0 : w0 < 2 ^ 32) (hw1 : w1 < 2 ^ 32)
     (henc : w0 / 2 ^ 31 = 0) (hop : extractBits w0 25 30 = row.opcode)
-    (h249 : extractBits w0 0 8 = 249) (e30 : extractBits w1 30 30 = 0)
+    (h249 : extractBits w0 0 8 = 249)
     (h : decodeRow c f row w0 (some w1) = .ok i) :
     encWord (descOf c i) = w0 ∧ encSecond (descOf c i) = some (normSdwa w1) := by
   unfold decodeRow at h
@@ -455,7 +410,7 @@ theorem nv_desc_vop2_sdwa (c : Bool) (f : Format) (row : Row) (w0 w1 : Nat) (i :
     cases hb : isKOpcode row.opcode with
     | false => rfl
     | true => simp [hb, Outcome.setSize] at h
-  simp only [hk, e30, bne_self_eq_false, Bool.false_eq_true, if_false, Outcome.setSize, Outcome.ok.injEq] at h
+  simp only [hk, Bool.false_eq_true, if_false, Outcome.setSize, Outcome.ok.injEq] at h
   have e13 := nv_bit_false b13 (extractBits_lt w1 13 13)
   have e19 := nv_bit_false b19 (extractBits_lt w1 19 19)
   have e20 := nv_bit_false b20 (extractBits_lt w1 20 20)
@@ -463,7 +418,7 @@ theorem nv_desc_vop2_sdwa (c : Bool) (f : Format) (row : Row) (w0 w1 : Nat) (i :
   have e27 := nv_bit_false b27 (extractBits_lt w1 27 27)
   have e28 := nv_bit_false b28 (extractBits_lt w1 28 28)
   have e29 := nv_bit_false b29 (extractBits_lt w1 29 29)
-  have harith := nv_sdwa_arith w1 hw1 e13 e19 e20 e21 e27 e28 e29 e30
+  have harith := nv_sdwa_arith w1 hw1 e13 e19 e20 e21 e27 e28 e29
   have l1 := extractBits_lt w0 9 16
   have l7 := extractBits_lt w1 0 7
   have hs1 : oIsSreg (some (if extractBits w1 31 31 != 0 then sreg (extractBits w0 9 16) (extractBits w0 9 16) 0
@@ -474,6 +429,17 @@ theorem nv_desc_vop2_sdwa (c : Bool) (f : Format) (row : Row) (w0 w1 : Nat) (i :
     · have : extractBits w1 31 31 = 1 := by have := extractBits_lt w1 31 31; omega
       simp only [this, Nat.reduceBneDiff, if_true]
       exact nv_oIsSreg_sreg _
+  have hs0 : oIsSreg (some (if extractBits w1 23 23 != 0 then sreg (extractBits w1 0 7) (extractBits w1 0 7) 0
+        else vreg (extractBits w1 0 7) (extractBits w1 0 7) 0)) = extractBits w1 23 23 := by
+    by_cases h23 : extractBits w1 23 23 = 0
+    · simp only [h23, bne_self_eq_false, Bool.false_eq_true, if_false]
+      exact nv_oIsSreg_vreg _ (by omega)
+    · have : extractBits w1 23 23 = 1 := by have := extractBits_lt w1 23 23; omega
+      simp only [this, Nat.reduceBneDiff, if_true]
+      exact nv_oIsSreg_sreg _
+  have hc0 : (if extractBits w1 23 23 != 0 then sreg (extractBits w1 0 7) (extractBits w1 0 7) 0
+        else vreg (extractBits w1 0 7) (extractBits w1 0 7) 0).code = extractBits w1 0 7 := by
+    split <;> rfl
   have hc1 : (if extractBits w1 31 31 != 0 then sreg (extractBits w0 9 16) (extractBits w0 9 16) 0
         else vreg (extractBits w0 9 16) (extractBits w0 9 16) 0).code = extractBits w0 9 16 := by
     split <;> rfl
@@ -482,12 +448,12 @@ theorem nv_desc_vop2_sdwa (c : Bool) (f : Format) (row : Row) (w0 w1 : Nat) (i :
     Nat.reduceBEq, Bool.false_eq_true, if_false, BEq.rfl, if_true]
   simp only [encWord, encSecond, sdwaWord, FT_SOP2, FT_SOPK, FT_SOP1, FT_SOPC, FT_SOPP, FT_SMEM, FT_VOP2, FT_VOP1, FT_VOPC, FT_VOP3a, FT_VOP3b, FT_FLAT, FT_DS,
     Nat.reduceBEq, Bool.false_eq_true, if_false, BEq.rfl, if_true, Bool.or_false, Bool.and_self]
-  simp only [hs1, ocode, hc1, vreg_code,
+  simp only [hs0, hs1, ocode, hc0, hc1, vreg_code,
     selInv_sdwaSel _ (by have := extractBits_lt w1 8 10; omega : extractBits w1 8 10 < 8),
     selInv_sdwaSel _ (by have := extractBits_lt w1 16 18; omega : extractBits w1 16 18 < 8),
     selInv_sdwaSel _ (by have := extractBits_lt w1 24 26; omega : extractBits w1 24 26 < 8)]
   constructor
-  · clear harith hs1 hc1
+  · clear harith hs0 hs1 hc0 hc1
     rw [← hop]; unfold extractBits at *; omega
   · exact congrArg some harith
 
@@ -563,7 +529,6 @@ theorem nv_desc_vop2_rest (c : Bool) (f : Format) (row : Row) (w0 : Nat) (w1? : 
 theorem desc_vop2 (c : Bool) (f : Format) (row : Row) (w0 : Nat) (w1? : Option Nat) (i : Inst)
     (hf : f.ft = FT_VOP2) (hsz : f.size = 4) (hw0 : w0 < 2 ^ 32) (hw1 : ∀ w1, w1? = some w1 → w1 < 2 ^ 32)
     (henc : w0 / 2 ^ 31 = 0) (hop : extractBits w0 25 30 = row.opcode)
-    (h30 : extractBits w0 0 8 = 249 → ∀ w1, w1? = some w1 → extractBits w1 30 30 = 0)
     (h : decodeRow c f row w0 w1? = .ok i) :
     encWord (descOf c i) = (normRow c f.ft row w0 w1?).1 ∧ encSecond (descOf c i) = (normRow c f.ft row w0 w1?).2 := by
   rw [hf, nv_normRow_vop2]
@@ -576,7 +541,7 @@ theorem desc_vop2 (c : Bool) (f : Format) (row : Row) (w0 : Nat) (w1? : Option N
         Nat.reduceBEq, Bool.false_eq_true, if_false, BEq.rfl, if_true, dec4] at h
       simp [decodeVOP2, h249] at h
     | some w1 =>
-      exact nv_desc_vop2_sdwa c f row w0 w1 i hf hsz hw0 (hw1 w1 rfl) henc hop h249 (h30 h249 w1 rfl) h
+      exact nv_desc_vop2_sdwa c f row w0 w1 i hf hsz hw0 (hw1 w1 rfl) henc hop h249 h
   · have hb9 : (extractBits w0 0 8 == 249) = false := by simpa using h249
     simp only [hb9, Bool.false_eq_true, if_false]
     exact nv_desc_vop2_rest c f row w0 w1? i hf hsz hw0 henc hop hb9 h
